@@ -23,6 +23,8 @@ def pairs(tier):
     out = [
         (1, (0, 0, 0), 1, (0, 0, 0)), (1, (1, 0, 0), 1, (0, 0, 0)), (2, (0, 1, 0), 1, (0, 1, 0)), (1, (1, 0, 0), 2, (0, 0, 1)),
         (0, (0, 1, 0), 1, (0, 0, 0)), (2, (0, 2, 0), 2, (0, 1, 0)), (1, (0, 2, 0), 1, (1, 0, 0)), (0, (0, 0, 0), 2, (0, 1, 0)),
+        # same degree, same distinct knots, same number of control points - the multiplicities are traded between two interior knots
+        (2, (2, 1, 0), 2, (1, 2, 0)), (1, (2, 1, 0), 1, (1, 2, 0)),
     ]
     if tier != "quick":
         out += [(2, (1, 0, 1), 2, (0, 1, 0)), (3, (0, 1, 0), 1, (1, 0, 0)), (2, (0, 3, 0), 1, (0, 1, 0)), (1, (1, 1, 0), 2, (0, 1, 1)),
